@@ -513,3 +513,70 @@ func ruleSETALIAS(c *Ctx) {
 		c.Lost(rule, "compiler.syntaxLoader:fill-slot", "no `*c.out.Sets[i] = *node` store found")
 	}
 }
+
+// GUARD(synthetic-name-free): the type collector adds a synthetic category "TokenSet" when tokens
+// are injected into the AST. Categories and node (range) types become Go declarations of the
+// same generated package, so the synthetic name must be free in *both* registries: the append
+// of Category{Name: "TokenSet"} is governed by a failed lookup of that name among the categories
+// and by a failed lookup among the range types (c.types). With only the first test a user node
+// type `-> TokenSet` yields two declarations of TokenSet and the generated package does not build.
+func ruleSYNTHNAME(c *Ctx) {
+	const rule = "GUARD(synthetic-name-free)"
+	f := c.SSAFunc("syntax", "(*typeCollector).resolveCategories")
+	key := "syntax.typeCollector.resolveCategories:TokenSet"
+	if f == nil {
+		c.Lost(rule, key, "function not found")
+		return
+	}
+	n := 0
+	for _, b := range f.Blocks {
+		for _, ins := range b.Instrs {
+			st, ok := ins.(*ssa.Store)
+			if !ok {
+				continue
+			}
+			fa, ok := st.Addr.(*ssa.FieldAddr)
+			if !ok || fieldName(fa.X.Type(), fa.Field) != "Name" {
+				continue
+			}
+			k, ok := st.Val.(*ssa.Const)
+			if !ok || k.Value == nil || k.Value.ExactString() != `"TokenSet"` {
+				continue
+			}
+			n++
+			var free []string
+			for _, g := range flattenConds(governing(b)) {
+				ex, ok := g.V.(*ssa.Extract)
+				if !ok || ex.Index != 1 || g.Pol {
+					continue
+				}
+				lk, ok := ex.Tuple.(*ssa.Lookup)
+				if !ok || !lk.CommaOk {
+					continue
+				}
+				if kk, ok := lk.Index.(*ssa.Const); ok && kk.Value != nil && kk.Value.ExactString() == `"TokenSet"` {
+					free = append(free, vpath(lk.X))
+				}
+			}
+			inTypes, inCats := false, false
+			for _, m := range free {
+				if strings.HasSuffix(m, ".types") {
+					inTypes = true
+				} else {
+					inCats = true
+				}
+			}
+			switch {
+			case inTypes && inCats:
+				c.Ok(rule, key, st.Pos(), "the synthetic category is added only when the name is free among categories and among range types")
+			case !inTypes:
+				c.Bad(rule, key, st.Pos(), "the synthetic category TokenSet is added without checking that no node type has that name (c.types): a rule reported as `-> TokenSet` makes the generated package declare TokenSet twice and it does not build")
+			default:
+				c.Bad(rule, key, st.Pos(), "the synthetic category TokenSet is added without checking the declared categories")
+			}
+		}
+	}
+	if n < 1 {
+		c.Lost(rule, key, "no Category literal named \"TokenSet\" found")
+	}
+}
